@@ -232,8 +232,8 @@ class Sym:
                 out.add(argd[0])
             else:
                 return None
-        if b0 in seen:
-            return None  # the use is inside a loop that can carry a later definition around
+        # a use inside a loop: a definition later in the loop body reaches the use around the back edge and is in `out`;
+        # _value_by_paths rejects the result when some reaching definition is not the last one on any acyclic path
         return out
 
     # ---- if-conversion: value of a mutable local at a program point as nested selects over branch conditions
@@ -324,6 +324,10 @@ class Sym:
         if not dfs(head, {head}, [], start_def):
             return None
         if not paths or any(p[1] is None for p in paths):
+            return None
+        # a definition that reaches the use only around a cycle (loop-carried) is not represented by any acyclic path:
+        # the value is then not a function of the branch decisions alone
+        if set(p[1] for p in paths) != set(R):
             return None
 
         def build(ps, k):
@@ -749,7 +753,7 @@ class Sym:
                 out.append((cond, ("ne", tuple(v for v, _ in arms)), d))
         return out
 
-    def path_conditions(self, b, cap=3000):
+    def path_conditions(self, b, cap=3000, with_blocks=False):
         """every acyclic path from the entry to block b as a list of (cond_expr, ('eq', v) | ('ne', vals)) decisions;
         None when there are more than `cap` paths"""
         fn = self.fn
@@ -802,7 +806,7 @@ class Sym:
                     else:
                         tv = None
                     if tv is not None:
-                        d = decs + [(cond_of(x), tv)]
+                        d = decs + [(cond_of(x), tv, x) if with_blocks else (cond_of(x), tv)]
                 if not dfs(sx, seen | {sx}, d):
                     return False
             return True
